@@ -232,3 +232,232 @@ def witnesses_b(prog, res):
             res.witness.append((name, not bad))
     if n < 8:
         res.broken.append("C01.b witness file yielded only %d functions" % n)
+
+
+# ------------------------------------------------------------------ C01.g save/restore
+
+def _is_lvalue_chain(fn, n):
+    n = fn.strip(n)
+    nd = fn.nodes[n]
+    return nd["k"] == "mem" or (nd["k"] == "idx")
+
+
+def save_restore_pairs(fn):
+    """discover (local var id, lvalue text) such that the function both saves
+    `L = E` and restores `E = L` (E a field / slot expression, L a local)"""
+    saves = {}
+    restores = {}
+    for i, nd in enumerate(fn.nodes):
+        if nd["k"] == "bin" and nd["o"] == "=":
+            lhs, rhs = fn.strip(nd["c"][0]), fn.strip(nd["c"][1])
+            ln, rn = fn.nodes[lhs], fn.nodes[rhs]
+            if ln["k"] == "ref" and "d" in ln and ln["d"] not in fn.params and _is_lvalue_chain(fn, rhs):
+                saves.setdefault((ln["d"], fn.txt(rhs)), []).append(i)
+            if rn["k"] == "ref" and "d" in rn and rn["d"] not in fn.params and _is_lvalue_chain(fn, lhs):
+                restores.setdefault((rn["d"], fn.txt(lhs)), []).append(i)
+        elif nd["k"] == "decl" and "d" in nd and nd.get("c"):
+            rhs = fn.strip(nd["c"][0])
+            if _is_lvalue_chain(fn, rhs):
+                saves.setdefault((nd["d"], fn.txt(rhs)), []).append(i)
+    # a genuine save/restore has the saved location overwritten with something else in
+    # between (sexp_context_params(ctx) = SEXP_NULL; sexp_context_child(ctx) = ctx2), or is a
+    # listed pair whose location is modified by a callee (the stack top in sexp_eval_op)
+    out = {}
+    for k in saves:
+        if k not in restores:
+            continue
+        vid, etxt = k
+        overwritten = False
+        for i, nd in enumerate(fn.nodes):
+            if nd["k"] == "bin" and nd["o"] == "=":
+                lhs, rhs = fn.strip(nd["c"][0]), fn.strip(nd["c"][1])
+                if fn.txt(lhs) == etxt and not (fn.nodes[rhs]["k"] == "ref" and fn.nodes[rhs].get("d") == vid):
+                    overwritten = True
+        # a save variable holds nothing but the saved value
+        from cfg import local_defs
+        only_saves = all(d in saves[k] or (r is not None and fn.const_val(r) is not None) or
+                         (fn.nodes[d]["k"] == "un" and fn.nodes[d]["o"] == "&")     # root-link &var
+                         for (d, r) in local_defs(fn, vid))
+        if only_saves and (overwritten or (fn.name, fn.vars[vid]["n"]) in CALLEE_MODIFIED):
+            out[k] = (saves[k], restores[k])
+    return out
+
+
+# (function, local) pairs whose saved location is changed by callees rather than by a store
+CALLEE_MODIFIED = {("sexp_eval_op", "top")}
+
+
+def run_g(prog, res, floor=4):
+    """context state saved into a local is restored on every path to a return"""
+    from cfg import PathExplorer, return_node
+    stat = res.stat("C01.g", "save/restore pairs (L = F(ctx) ... F(ctx) = L) discovered per function: the restore "
+                    "executes on every path from the save to a return", floor=floor)
+    anchors = {"sexp_eval_op": 0, "sexp_apply_no_err_handler": 0}
+    for fn in prog.all_funcs():
+        pairs = save_restore_pairs(fn)
+        # only state that lives in a context / global cell: the lvalue mentions a context field
+        pairs = {k: v for k, v in pairs.items() if "context." in k[1] or "globals" in k[1]}
+        if not pairs:
+            continue
+        stat.sites += 1
+        if fn.name in anchors:
+            anchors[fn.name] = len(pairs)
+        for (vid, etxt), (sv, rs) in pairs.items():
+            stat.obligations += 1
+            svs, rss = set(sv), set(rs)
+            bad = []
+
+            def transfer(bid, e, st):
+                if e in svs:
+                    return [1]
+                if e in rss:
+                    return [2] if st >= 1 else [st]
+                return None
+
+            def at_exit(bid, st, key):
+                if st == 1:
+                    bad.append((bid, key))
+
+            ex = PathExplorer(fn, transfer, None, at_exit)
+            ex.run(0)
+            name = fn.vars[vid]["n"]
+            if not bad:
+                stat.discharged += 1
+                stat.sample({"function": fn.name, "where": fn.where(sv[0]), "saved": "%s = %s" % (name, etxt[:60]),
+                             "verdict": "restored on every path to a return"})
+            else:
+                bid, key = bad[0]
+                rn = return_node(fn, bid)
+                rtxt = fn.txt(rn)[:80] if rn is not None else "fall off end"
+                res.add(Finding("C01", "C01.g.unrestored", fn.name, "%s <- %s at %s" % (etxt[:60], name, rtxt),
+                                fn.where(rn) if rn is not None else fn.where(),
+                                "%s saves %s into `%s` and restores it elsewhere, but the path ending in `%s` returns "
+                                "without the restore: after an error the context does not evaluate later programs like "
+                                "a context that never saw the error" % (fn.name, etxt[:60], name, rtxt),
+                                unit=fn.unit.display, path=["B%s" % b for b in ex.path_to(key)]))
+    for a, n in anchors.items():
+        if n == 0:
+            res.broken.append("C01.g: anchor %s has no discovered save/restore pair" % a)
+    return stat
+
+
+# ------------------------------------------------------------------ C01.a dispatch totality
+
+def run_a(prog, res):
+    stat = res.stat("C01.a", "every opcode enumerator below SEXP_OP_NUM_OPCODES has a case in the VM dispatch switch; "
+                    "the default arm raises", floor=80)
+    fn = prog.func("sexp_apply")
+    if fn is None:
+        raise AnalysisBroken("anchor vanished: sexp_apply")
+    enum = tables.enum_values(prog, const_prefix="SEXP_OP_NOOP")
+    limit = dict(enum).get("SEXP_OP_NUM_OPCODES")
+    if limit is None:
+        raise AnalysisBroken("anchor vanished: SEXP_OP_NUM_OPCODES")
+    best = None
+    for b in fn.blocks.values():
+        if b.term == "SwitchStmt":
+            n = sum(1 for s in b.succs if s is not None and s >= 0 and fn.blocks[s].lk == "case")
+            if best is None or n > best[1]:
+                best = (b, n)
+    if best is None or best[1] < 40:
+        raise AnalysisBroken("anchor vanished: the VM dispatch switch in sexp_apply")
+    sw = best[0]
+    covered = {}
+    default = None
+    for s in sw.succs:
+        if s is None or s < 0:
+            continue
+        sb = fn.blocks[s]
+        if sb.lk == "case" and sb.clo is not None:
+            for v in range(sb.clo, (sb.chi if sb.chi is not None else sb.clo) + 1):
+                covered[v] = sb
+        elif sb.lk == "default":
+            default = sb
+    # opcodes that can reach the VM: emitted by the code generator (argument of an emit call,
+    # anywhere outside sexp_apply) or exposed by a row of opcodes[]
+    live = {}
+    for f2 in prog.all_funcs():
+        if f2.name == "sexp_apply" or f2.unit.name in ("disasm.c", "gc_heap.c"):
+            continue
+        for i, nd in enumerate(f2.nodes):
+            if nd["k"] == "ref" and nd.get("dk") == "e" and nd["o"].startswith("SEXP_OP_") and nd["v"] < limit:
+                p_ = f2.parent(i)
+                while p_ is not None and f2.nodes[p_]["k"] in ("cast", "cond"):
+                    p_ = f2.parent(p_)
+                if p_ is not None and f2.nodes[p_]["k"] == "call":
+                    live.setdefault(nd["v"], "%s in %s" % (f2.nodes[p_].get("o") or "call", f2.name))
+    orows, _og = tables.opcode_rows(prog)
+    for r in orows:
+        if isinstance(r.get("code"), int) and r.get("name"):
+            live.setdefault(r["code"], "opcodes[] row %s" % r["name"])
+    names = {v: n for n, v in enum}
+    for name, v in enum:
+        if v >= limit:
+            continue
+        stat.sites += 1
+        if v not in live and v not in covered:
+            continue            # compiled out on both sides
+        stat.obligations += 1
+        if v in covered:
+            stat.discharged += 1
+        else:
+            res.add(Finding("C01", "C01.a.missing-case", "sexp_apply", name, fn.where(),
+                            "opcode %s (%d) can reach the VM (%s) but has no case in the dispatch switch"
+                            % (name, v, live[v]), unit="vm.c"))
+    stat.obligations += 1
+    ok = False
+    if default is not None:
+        cur = default
+        for _ in range(6):
+            if cur.ln and cur.ln.startswith("goto:"):
+                ok = cur.ln == "goto:call_error_handler"
+                break
+            nxt = [x for x in cur.succs if x is not None and x >= 0]
+            if len(nxt) != 1:
+                break
+            cur = fn.blocks[nxt[0]]
+    if ok:
+        stat.discharged += 1
+        stat.sample({"switch": "vm.c:%d" % sw.line, "cases": len(covered), "default": "raises (goto call_error_handler)"})
+    else:
+        res.add(Finding("C01", "C01.a.default-arm", "sexp_apply", "default arm", fn.where(),
+                        "the default arm of the VM dispatch switch does not end in the raise idiom "
+                        "(goto call_error_handler): an unknown opcode byte would fall through", unit="vm.c"))
+    return stat
+
+
+# ------------------------------------------------------------------ C01.d slot accessor rows
+
+def run_d(prog, res):
+    stat = res.stat("C01.d", "_GETTER/_SETTER rows of opcodes[] designate a sexp-typed field of the union member "
+                    "of their type", floor=6)
+    orows, _g = tables.opcode_rows(prog)
+    trows, _tg = tables.type_rows(prog)
+    L = tables.Layout(prog)
+    bytag = {r["tag"]: r for r in trows}
+    for r in orows:
+        if r.get("_code_name") not in ("SEXP_OP_SLOT_REF", "SEXP_OP_SLOT_SET"):
+            continue
+        stat.sites += 1
+        stat.obligations += 1
+        ty = tables.unbox_fixnum(r["data"])
+        idx = tables.unbox_fixnum(r["data2"])
+        trow = bytag.get(ty)
+        name = r["name"]
+        if trow is None or trow["_member"] is None or idx is None:
+            res.add(Finding("C01", "C01.d.slot-row", "opcodes", name, "opcodes.c:%d" % r["_line"],
+                            "slot accessor %s names type %s / index %s which has no described union member" % (name, ty, idx),
+                            unit="opcodes.c"))
+            continue
+        member = trow["_member"]
+        off = L.value_off + idx * 8
+        f = L.field_at(member, off)
+        if f is None or f[1] != tables.SEXP_T:
+            res.add(Finding("C01", "C01.d.slot-row", "opcodes", name, "opcodes.c:%d" % r["_line"],
+                            "slot accessor %s reads word %d of value.%s, which is %s - not a sexp field: the getter hands a "
+                            "raw word to Scheme / the setter lets Scheme overwrite it" %
+                            (name, idx, member, ("%s %s" % (f[1], f[0])) if f else "outside the member"), unit="opcodes.c"))
+        else:
+            stat.discharged += 1
+            stat.sample({"row": name, "type": trow["_name"], "index": idx, "field": "%s.%s" % (member, f[0])})
+    return stat
